@@ -18,6 +18,7 @@ RULE = ("plain intervals: end points and arguments on the dyadic grid k/16 (|k|<
 ASSUMPTIONS = ["float rounding inside + - * / and math.fmod is modelled as exact rational arithmetic; the correspondence is exact on "
                "the dyadic grid and uses a 1e-9 band elsewhere",
                "angles within 1e-9 (mod 2pi) of an interval end point are 'ambiguous' for the oracle (the property is tolerance-guarded)"]
+EXTRA_MODULES = ['CRProps.T16']      # translator tie: Gen.Src (regenerated from /repo every run) = hand model
 REQUIRED_BUCKETS = ["plain/contains", "plain/mul-neg", "plain/div-neg", "plain/mk-reject", "plain/intersection-none",
                     "angle/long", "angle/int-arg", "angle/wrap", "angle/containsI", "angle/shift", "plain/arbitrary-floats"]
 
